@@ -112,6 +112,8 @@ def pp_layout(tier='quick', seed=0):
     fmts = ['bin', 'hex', 'oct']
     combos = 600 if tier == 'quick' else 8000
     saved = bitstring.options.no_color
+    ragged = []
+    n_ragged = 0
     try:
         for _ in range(combos):
             f1 = rng.choice(fmts)
@@ -137,9 +139,15 @@ def pp_layout(tier='quick', seed=0):
             try:
                 b.pp(fmt, width=width, sep=sep, show_offset=show_offset, stream=out)
             except ValueError as ex:
-                # refused today exactly when the format is ungrouped and the data is not a whole number of its digits; a grouped format
-                # reports the odd bits as trailing bits, and whole-digit data always prints
+                # refused today exactly when the format has no group length (or a length of zero) and the data is not a whole number of its
+                # digits; a grouped format reports the odd bits as trailing bits, and whole-digit data always prints.  The property asks for
+                # the digits plus the reported trailing bits here too: recorded as its own obligation (known finding KF4 -- the behaviour is
+                # pinned by tests/test_bits.py::TestPrettyPrintingErrors::test_interpret_problems), so that every *other* refusal is a failure
                 if (not bits_per_group) and any(n % bpc[f] for f in (f1, f2) if f):
+                    if len(ragged) < 3:
+                        ragged.append({'call': f'Bits({n} bits).pp({fmt!r})', 'observed': f'{type(ex).__name__}: {ex}'[:140], 'expected': 'the whole digits, then "+ trailing_bits = ..."',
+                                       'python': 'import io, bitstring\n' + f"try:\n    bitstring.Bits({n}).pp({fmt!r}, stream=io.StringIO())\n    FAILS = False\nexcept ValueError:\n    FAILS = True\n"})
+                    n_ragged += 1
                     continue
                 fails.append({'call': f'Bits(bin={s!r}).pp({fmt!r}, width={width}, sep={sep!r}, show_offset={show_offset})', 'observed': f'{type(ex).__name__}: {ex}'[:160],
                               'expected': 'the digits of the data (a whole number of digits of each format, or a grouped format)',
@@ -196,7 +204,10 @@ def pp_layout(tier='quick', seed=0):
     return {'id': 'C19.pp', 'obligations': [], 'evaluations': evals,
             'bounded': [{'id': 'C19/bits.Bits.pp/layout', 'qualname': 'bits.Bits.pp', 'shape': 'random layouts', 'function': 'Bits.pp/_pp/_format_bits',
                          'bound': f'{combos} random (format pair, group size, width, separator, offset, colour, length) combinations',
-                         'evaluations': evals, 'failures': fails[:3]}], 'summary': f'{evals} pp calls, {len(fails)} failures'}
+                         'evaluations': evals, 'failures': fails[:3]},
+                        {'id': 'C19/bits.Bits.pp/data-that-is-not-a-whole-number-of-digits-under-a-format-without-group-length', 'qualname': 'bits.Bits.pp@no-group-length',
+                         'shape': 'ragged lengths', 'function': 'Bits.pp', 'bound': f'{n_ragged} of the random combinations', 'evaluations': n_ragged, 'failures': ragged[:2]}],
+            'summary': f'{evals} pp calls, {len(fails)} failures'}
 
 
 def array_pp(tier='quick', seed=0):
